@@ -58,7 +58,7 @@ class G:
     def name(self, pool_odd=0.35):
         rng = self.rng
         if rng.random() < pool_odd:
-            n = rng.choice(ODD[:-3] if self.rule else ODD)   # symbol names only in parse cases
+            n = rng.choice(ODD)
             self.flags.add("odd")
         else:
             n = rng.choice(PLAIN)
@@ -83,10 +83,10 @@ class G:
         elif k < 0.35:
             v = self.name(0.3)
         elif k < 0.7:
-            v = '"' + rng.choice(["v w", "v", "", "it's", "\\41 b", "x\\-y", "é"]) + '"'
+            v = '"' + rng.choice(["v w", "v", "", "it's", "\\41 b", "x\\-y", "é", "a\\\"b", "\\41 g", "\\a x", "q\\\\"]) + '"'
             self.flags.add("quote")
         else:
-            v = "'" + rng.choice(["v w", "v", "", 'say "x"', "\\e9", "a\\\\b"]) + "'"
+            v = "'" + rng.choice(["v w", "v", "", 'say "x"', "\\e9", "a\\\\b", "a\\'b", "\\9 t"]) + "'"
             self.flags.add("quote")
         m = ""
         if rng.random() < 0.3:
